@@ -309,6 +309,9 @@ class Real:
         if self.assets is None:
             self.build()
         with quiet():
+            # lifecycle prefix: the same objects have been set up before (same grid object, other prices)
+            for _ in range(getattr(self, 'presetups', 0)):
+                self.portfolio.setup_optim_problem({k: v[::-1].copy() for k, v in self.prices.items()}, self.timegrid, **kw)
             self.op = self.portfolio.setup_optim_problem(self.prices, self.timegrid, **kw)
         return self.op
 
